@@ -304,7 +304,9 @@ class TracepointExecutionStats:
         :param ts: the time in nanoseconds
         """
         self._fire_count += 1
-        self._last_fire = ts
+        # hits are recorded in the order their threads get here, not in the order of their timestamps: never move
+        # the last fire back in time, or the next hit is measured against a fire older than the latest one
+        self._last_fire = max(self._last_fire, ts)
 
     @property
     def fire_count(self):
